@@ -12,7 +12,8 @@ RULE = ("every 2-input <=2-gate circuit and seeded random lint-clean acyclic bla
         "a startpoint in its cone x endpoint choices {default, one output, random subset}; every input valuation is "
         "simulated with n (or a startpoint) inverted by an independent evaluator; non-trivial = n is a gate with >=2 "
         "startpoints in its cone"
-        "; plus: influence of a two-node list against the single-node calls, template-derived names (a name-clash ValueError on such a circuit is a stated rejection), shuffled node order")
+        "; plus: influence of a two-node list against the single-node calls, template-derived names (a name-clash ValueError on such a circuit is a stated rejection), shuffled node order"
+        "; histories: an endpoint-restricted sensitization_transform of the same object before the calls under test")
 BOUND = "circuits <= 10 nodes, <= 5 startpoints; all valuations; 4/16 hash seeds"
 
 
@@ -23,7 +24,7 @@ def cases(tier, seed):
             if i % ((3 if n_g == 1 else 60) if tier == "quick" else 6):
                 continue
             for n in [r[0] for r in cd["nodes"]]:
-                yield {"c": cd, "n": n, "ep": None}
+                yield {"c": cd, "n": n, "ep": None, "warm": i % 2 == 0}
     for i in range(60 if tier == "quick" else 1200):
         cd = gen.random_circuit(rng, n_in=rng.randint(1, 4), n_gates=rng.randint(1, 5), max_fanin=3, p_const=0.3,
                                 p_out=0.4, allow_input_output=rng.random() < 0.3)
@@ -39,7 +40,8 @@ def cases(tier, seed):
                 eps.append([rng.choice(outs)])
                 eps.append(sorted(rng.sample(outs, rng.randint(1, len(outs)))))
             others = [m for m in names if m != n]
-            yield {"c": cd, "n": n, "ep": rng.choice(eps), "n2": (rng.choice(others) if others and rng.random() < 0.5 else None)}
+            yield {"c": cd, "n": n, "ep": rng.choice(eps), "n2": (rng.choice(others) if others and rng.random() < 0.5 else None),
+                   "warm": rng.random() < 0.4}
 
 
 def _eval_forced(c, inputs, forced):
@@ -78,6 +80,15 @@ def run_case(case):
     fails = []
     snap = circ.snapshot(c)
     outs = sorted(x for x in g if g.nodes[x].get("output"))
+    if case.get("warm"):
+        # an earlier endpoint-restricted analysis of the same object must not influence the ones under test
+        for o in outs:
+            if n == o or n in nx.ancestors(g, o):
+                try:
+                    cg.tx.sensitization_transform(c, n, endpoints=[o])
+                except ValueError:
+                    pass
+                break
 
     # ---- sensitization_transform + sensitize
     E = list(ep) if ep else outs
